@@ -2,6 +2,7 @@
 import os
 
 from .common import SPEC, MachineryError, run_parallel, run_tlc, NCPU
+from .scalar_rt import max_procs
 
 SCALAR_DIR = os.path.join(SPEC, "scalar")
 
@@ -15,7 +16,7 @@ def check_files(files, scratch_dir, timeout=3000, heap="3g"):
         return run_tlc(mod, cfg, workers=1, env={"CASES_FILE": path}, timeout=timeout, heap=heap,
                        metadir=os.path.join(scratch_dir, "meta-sc-%d-%d" % (os.getpid(), i)))
 
-    results = run_parallel([lambda i=i, p=p: job(i, p) for i, p in enumerate(files)], nproc=min(NCPU, 16))
+    results = run_parallel([lambda i=i, p=p: job(i, p) for i, p in enumerate(files)], nproc=min(max_procs(), 16))
     mismatches, summaries = [], []
     for path, res in zip(files, results):
         if not res.clean:
